@@ -64,6 +64,7 @@ extern waiter_el_t* waiter_remove_less_than(waiter_el_t** tree, const uint64_t w
 
 /* generated probe (tools/gen/gen_sleep.py --probe) */
 extern uint64_t probe_sleep_ms(uint32_t seconds, uint32_t useconds);
+extern uint64_t probe_sleep_ms_src(uint32_t seconds, uint32_t useconds);   /* verbatim source text */
 extern void probe_sleep(unsigned int seconds, uint32_t* s, uint32_t* us);
 extern void probe_usleep(useconds_t useconds, uint32_t* s, uint32_t* us);
 extern void probe_nanosleep(long long sec, long nsec, uint32_t* s, uint32_t* us);
@@ -142,6 +143,7 @@ static int mode_arith(void) {
     else if (w == 1) probe_sleep((unsigned int)a, &s, &us);
     else if (w == 2) probe_usleep((useconds_t)a, &s, &us);
     else probe_nanosleep(a, (long)b, &s, &us);
+    if (probe_sleep_ms(s, us) != probe_sleep_ms_src(s, us)) { printf("SRCDIFF %u %u\n", s, us); continue; }
     printf("%llu %llu %llu\n", (unsigned long long)s, (unsigned long long)us,
            (unsigned long long)probe_sleep_ms(s, us));
   }
@@ -153,6 +155,7 @@ static int mode_arith(void) {
 static int vt_fd = -1;                       /* the eventfd standing for the timerfd */
 static atomic_flag vt_lock = ATOMIC_FLAG_INIT;
 static volatile uint64_t vt_T;               /* expirations delivered so far */
+static _Atomic uint64_t vt_consumed;         /* expirations read back by the library */
 static void vt_acquire(void) { while (atomic_flag_test_and_set_explicit(&vt_lock, memory_order_acquire)) { } }
 static void vt_release(void) { atomic_flag_clear_explicit(&vt_lock, memory_order_release); }
 static void vt_advance(uint64_t k) {
@@ -220,6 +223,7 @@ static volatile int hold_reads;
 static _Atomic int read_held;
 static ssize_t h_read(int fd, void* buf, size_t n) {
   const ssize_t r = syscall(SYS_read, fd, buf, n);
+  if (fd == vt_fd && r == (ssize_t)sizeof(uint64_t)) atomic_fetch_add(&vt_consumed, *(uint64_t*)buf);
   if (fd == vt_fd && r == (ssize_t)sizeof(uint64_t) && hold_reads) {
     atomic_fetch_add(&in_hold, 1);
     atomic_store(&read_held, 1);
@@ -269,6 +273,12 @@ static void one_sleep(int me, int kind, long long a, long long b, int do_clobber
 typedef struct { long tick_us; uint64_t budget; long start_delay_us; _Atomic int* gate; int gate_n; void (*prologue)(void); } drv_t;
 static drv_t drv;
 static void report_and_exit(int code);
+/* expirations after which THIS design wakes a sleeper: ms + 1, plus one (64-bit arithmetic) */
+static uint64_t own_deadline(int kind, long long a, long long b);
+/* tick budget exhausted: before declaring anybody lost, give the library real
+ * time (slow ticks, up to 1.5 s) to wake every sleeper whose own deadline has
+ * long passed -- on a loaded machine the pollers lag behind the tick pace */
+static void settle(void);
 static void* driver(void* p) {
   (void)p;
   if (drv.gate) { while (atomic_load(drv.gate) < drv.gate_n) real_sleep_us(50); }
@@ -277,7 +287,10 @@ static void* driver(void* p) {
   uint64_t issued = 0;
   while (!atomic_load(&finished)) {
     if (atomic_load(&in_hold)) { real_sleep_us(20); continue; }
-    if (issued >= drv.budget) report_and_exit(3);
+    if (issued >= drv.budget) { settle(); report_and_exit(3); }
+    /* do not run far ahead of the pollers when the machine is loaded (lateness
+     * is not what is measured); give up after 100 ms of real time */
+    for (int w = 0; w < 2000 && vt_T - atomic_load(&vt_consumed) > 32; ++w) real_sleep_us(50);
     vt_advance(1);
     ++issued;
     real_sleep_us(drv.tick_us);
@@ -288,6 +301,32 @@ static void start_driver(long tick_us, uint64_t budget, long start_delay_us, _At
   drv.tick_us = tick_us; drv.budget = budget; drv.start_delay_us = start_delay_us; drv.gate = gate; drv.gate_n = gate_n;
   pthread_t th;
   pthread_create(&th, NULL, driver, NULL);
+}
+
+static uint64_t own_deadline(int kind, long long a, long long b) {
+  unsigned long long s = 0, us = 0;
+  if (kind == K_FSLEEP) { s = (uint32_t)a; us = (uint32_t)b; }
+  else if (kind == K_SLEEP) { s = (uint32_t)a; }
+  else if (kind == K_USLEEP) { s = (uint32_t)a / 1000000; us = (uint32_t)a % 1000000; }
+  else { s = (uint32_t)a; us = (unsigned long long)b / 1000 + 1; }
+  return s * 1000 + us / 1000 + 2;
+}
+static int overdue_pending(void) {
+  const uint64_t now = vt_now();
+  for (int i = 0; i < nfib; ++i) {
+    const int n = nrec[i];
+    if (n > 0 && !rec[i][n - 1].done) {
+      srec_t* r = &rec[i][n - 1];
+      if (now - r->tc > own_deadline(r->kind, r->a, r->b) + 20) return 1;
+    }
+  }
+  return 0;
+}
+static void settle(void) {
+  for (int k = 0; k < 1500 && !atomic_load(&finished) && overdue_pending(); ++k) {
+    if (!atomic_load(&in_hold)) vt_advance(1);
+    real_sleep_us(1000);
+  }
 }
 
 static pthread_mutex_t report_mu = PTHREAD_MUTEX_INITIALIZER;
@@ -426,6 +465,7 @@ static int scn_c(int argc, char** argv) {
   const int nf = argc > 1 ? atoi(argv[1]) : 3;
   const int pat = argc > 2 ? atoi(argv[2]) : 0;
   const int rounds = argc > 3 ? atoi(argv[3]) : 1;
+  const int hold_ms = argc > 4 ? atoi(argv[4]) : 60;   /* 0: no injected preemption, natural timing only */
   fiber_manager_init(nthreads);
   nfib = nf + 1;                               /* last one = victim */
   static fiber_t* fs[MAXF];
@@ -436,7 +476,7 @@ static int scn_c(int argc, char** argv) {
   }
   plan_t* vic = &plans[nf];
   vic->me = nf; vic->n = 1; vic->clob = 0; vic->kinds[0] = K_USLEEP; vic->a[0] = 400000; vic->b[0] = 0;
-  hold_after_schedule = 60;
+  hold_after_schedule = hold_ms;
   /* ticks start only when every sleeper has started, plus a grace period in
    * which they all reach the tree: they then share one deadline */
   start_driver(150, 1500, 30000, &started, nf + 1);
